@@ -419,6 +419,9 @@ def hash_quirk(draw, kind):
 
     lo, hi = draw(st.sampled_from(((-1, -2), (-2, -1))))
     ab = [(draw(st.integers(-3, 3)), draw(st.integers(-3, 3))) for _ in range(2)]
+    if draw(st.booleans()):
+        # the other two coordinates in {0, 1}: then the mixed-product terms of the Point / Vector hash collide as well
+        ab = [(draw(st.integers(0, 1)), draw(st.integers(0, 1))) for _ in range(2)]
     if kind == "P":
         o, o2 = ("P", pt(lo, *ab[0])), ("P", pt(hi, *ab[0]))
     elif kind == "V":
